@@ -36,6 +36,62 @@ pub struct Kb {
     /// kind of each derived field: false = bool (true/false), true = string ("yes"/"no")
     pub str_kind: [bool; ND],
     pub monotone: bool,
+    /// 0 = the string-kind derived fields hold "yes"/"no"; k > 0 = the ones that are never asked about directly (d4, d5:
+    /// only intermediate conclusions and premises) hold the k-th pair of strings that are awkward to carry through a
+    /// textual sub-goal: embedded quote, backslash, line break / tab, combining and zero-width characters, empty / blank
+    pub str_style: u8,
+}
+
+/// (good, bad) values of string-kind intermediate fields per style
+pub const STR_STYLES: [(&str, &str); 6] = [("yes", "no"), ("y\"es", "n\"o"), ("y\\es", "n\\o"), ("y\nes", "n\to"), ("ye\u{301}s", "n\u{200b}o"), ("", " ")];
+
+/// Draw the style (call it LAST in a part's generation, after every other draw, so that byte-encoded cases written
+/// before styles existed decode as before) and rewrite the knowledge base and the store accordingly.
+pub fn apply_str_style(s: &mut Src, kb: &mut Kb, st: &mut Store) {
+    if !s.chance(1, 4) {
+        return;
+    }
+    let k = 1 + s.below(STR_STYLES.len() - 1);
+    kb.str_style = k as u8;
+    let (g, b) = STR_STYLES[k];
+    let map = |v: &mut V| {
+        if let V::Str(t) = v {
+            if t == "yes" {
+                *t = g.to_string();
+            } else if t == "no" {
+                *t = b.to_string();
+            }
+        }
+    };
+    fn walk(c: &mut Cond, f: &dyn Fn(&mut V)) {
+        match c {
+            Cond::Atom(a) => {
+                if let (Lhs::Field(p), Term::Lit(v)) = (&a.lhs, &mut a.rhs) {
+                    if p == &dname(4) || p == &dname(5) {
+                        f(v);
+                    }
+                }
+            }
+            Cond::And(a, b) | Cond::Or(a, b) => {
+                walk(a, f);
+                walk(b, f);
+            }
+            Cond::Not(x, _) => walk(x, f),
+        }
+    }
+    for r in kb.rules.iter_mut() {
+        walk(&mut r.cond, &map);
+        for (f, v) in r.heads.iter_mut() {
+            if f == &dname(4) || f == &dname(5) {
+                map(v);
+            }
+        }
+    }
+    for i in [4usize, 5] {
+        if let Some(v) = st.top.get_mut(&dname(i)) {
+            map(v);
+        }
+    }
 }
 
 #[derive(Clone, Copy, Debug, PartialEq, Eq, Hash)]
@@ -70,14 +126,14 @@ impl Cfg {
 
 pub fn good(kb: &Kb, i: usize) -> V {
     if kb.str_kind[i] {
-        V::Str("yes".into())
+        V::Str(if i >= 4 { STR_STYLES[kb.str_style as usize].0 } else { "yes" }.into())
     } else {
         V::Bool(true)
     }
 }
 pub fn bad(kb: &Kb, i: usize) -> V {
     if kb.str_kind[i] {
-        V::Str("no".into())
+        V::Str(if i >= 4 { STR_STYLES[kb.str_style as usize].1 } else { "no" }.into())
     } else {
         V::Bool(false)
     }
@@ -123,7 +179,7 @@ fn gen_body(s: &mut Src, kb: &Kb, nd: usize, monotone: bool, depth: usize) -> Co
 
 pub fn gen_kb(s: &mut Src, max_rules: usize, force_monotone: Option<bool>) -> Kb {
     let monotone = force_monotone.unwrap_or_else(|| s.chance(1, 3));
-    let mut kb = Kb { rules: vec![], str_kind: [false; ND], monotone };
+    let mut kb = Kb { rules: vec![], str_kind: [false; ND], monotone, str_style: 0 };
     for k in kb.str_kind.iter_mut() {
         *k = s.chance(1, 4);
     }
